@@ -891,6 +891,13 @@ func (p *Parser) parseNameString() ([]byte, parseResult) {
 
 	switch next {
 	case 0x00: // NullName (null string or a name terminator)
+		if p.r.Offset()-1 > startOffset {
+			// A prefix followed by the null name (e.g. "\" = the root scope):
+			// return the prefix without the terminator
+			str.Len = int(p.r.Offset() - 1 - startOffset)
+			str.Cap = str.Len
+			return *(*[]byte)(unsafe.Pointer(&str)), res
+		}
 		startOffset = p.r.Offset()
 		// return empty string
 	case 0x2e: // DualNamePath := DualNamePrefix NameSeg NameSeg
